@@ -56,6 +56,9 @@ def parse(s):
     s = s.strip()
     if not s:
         return ('true',)
+    # `x.empty()` and `x.size() == 0` are one condition
+    if s.endswith('empty()') and not s.startswith(('!', '(')) and _split_top(s, ' && ') == [s] and _split_top(s, ' || ') == [s]:
+        return _eq_atom('0', s[:-len('empty()')] + 'size()')
     parts = _split_top(s, ' && ')
     if len(parts) > 1:
         return ('and', tuple(parse(p) for p in parts))
